@@ -144,8 +144,17 @@ InsertSorted(s, x) == IF Len(s) = 0 THEN <<x>>
                       ELSE Append(s, x)
 RECURSIVE SortPairs(_)
 SortPairs(ps) == IF Len(ps) = 0 THEN <<>> ELSE InsertSorted(SortPairs(Front(ps)), Last(ps))
-SortByKeys(vals, keys) == LET ps == SortPairs([i \in 1..Len(vals) |-> [v |-> vals[i], k |-> keys[i]]])
-                          IN [i \in 1..Len(ps) |-> ps[i].v]
+InsSortByKeys(vals, keys) == LET ps == SortPairs([i \in 1..Len(vals) |-> [v |-> vals[i], k |-> keys[i]]])
+                             IN [i \in 1..Len(ps) |-> ps[i].v]
+\* The same stable sort defined by RANK (no recursion, so it also handles the
+\* arrays of hundreds of elements that occur in recorded traces): element i
+\* goes to position 1 + #{ j : key j < key i, or key j = key i and j < i }.
+\* GenSort checks that both definitions agree.
+SortByKeys(vals, keys) ==
+  LET n == Len(vals)
+      rank == [i \in 1..n |-> 1 + Cardinality({ j \in 1..n : KeyLess(keys[j], keys[i]) \/ (j < i /\ KeyEq(keys[j], keys[i])) })]
+      at == [r \in 1..n |-> CHOOSE i \in 1..n : rank[i] = r]
+  IN [r \in 1..n |-> vals[at[r]]]
 HasTies(keys) == \E i, j \in 1..Len(keys) : i < j /\ KeyEq(keys[i], keys[j])
 
 \* extremal element by key; when several DISTINCT elements share the
